@@ -95,7 +95,7 @@ class C10(Check):
     reference_models = ["namespace model in checks/C10.py", "ref/refext4.py tree_digest(), htree hash-range check (independent dirhash), check()"]
 
     def budget(self, tier):
-        return {"runs": 1400, "wall_s": 80} if tier == "quick" else {"runs": 40000, "wall_s": 1500}
+        return {"runs": 1400, "wall_s": 80} if tier == "quick" else {"runs": 10000, "wall_s": 1500}
 
     def generate(self, rng, tier):
         cfg = gen_config(rng, small=True, avoid=("mmp", "bigalloc", "quota", "project", "has_journal", "orphan_file"))
